@@ -108,9 +108,10 @@ func init() {
 		{Name: "seq", Share: 5, Sc: scC04},
 		{Name: "cross-burst", Share: 1, Sc: scC04CrossBurst},
 	}})
-	register(&PropDef{ID: "C05", Quick: 2400, Thorough: 60000, Profiles: []ProfileDef{
+	register(&PropDef{ID: "C05", Quick: 2800, Thorough: 70000, Profiles: []ProfileDef{
 		{Name: "seq", Share: 5, Sc: scC05},
 		{Name: "held", Share: 1, Sc: scC05Held},
+		{Name: "parts-burst", Share: 1, Sc: scMuxBurst("parts")},
 	}})
 }
 
